@@ -4,8 +4,8 @@ import json
 from .. import core, explore, stages
 
 LEVEL = "proof"
-CLAIM = 'Theorems: soundness of the certificate checkers (language_preserved, trim, reduced, minimal_size): any (raw, minimised) pair that passes bisimCheck/accessCheck/coaccessCheck/distinctCheck has equal languages and the minimised automaton is trim, reduced and of minimal size among all automata of that language. On every run the real DFA::minimize output for the main automaton and every within-word automaton of every explored grammar is certified this way (certificates found by search, checked by the verified checkers), so each explored automaton is decided exactly. Also proved over the model of do_minimize itself (Model/Min.lean: Hopcroft refinement with the dead state 0 for every iteration order of its hash containers, quotient, the two clean-up passes, renumbering): hopcroft_preserves_language (every well-formed input automaton), built_automaton_wf (what the subset construction builds is well-formed) and hence minimize_built_automaton — minimising the automaton the compiler builds preserves its language for all schedules of both loops; hopcroft_partition_stable (the final partition is a congruence that never mixes accepting and non-accepting states). Minimality over the model is not proved; it is decided per automaton by the certificates.'
-NOTE = 'The theorem about the model of do_minimize for every partition-refinement order (hopcroft_correct) is open; until it closes, the all-inputs claim rests on per-automaton certification (complete per automaton, not a proof over all automata). Trusted: vh dump, search code is untrusted (only its certificates are checked).'
+CLAIM = 'Theorems: soundness of the certificate checkers (language_preserved, trim, reduced, minimal_size): any (raw, minimised) pair that passes bisimCheck/accessCheck/coaccessCheck/distinctCheck has equal languages and the minimised automaton is trim, reduced and of minimal size among all automata of that language. On every run the real DFA::minimize output for the main automaton and every within-word automaton of every explored grammar is certified this way (certificates found by search, checked by the verified checkers), so each explored automaton is decided exactly. Also proved over the model of do_minimize itself (Model/Min.lean: Hopcroft refinement with the dead state 0 for every iteration order of its hash containers, quotient, the two clean-up passes, renumbering): hopcroft_preserves_language (every well-formed input automaton), built_automaton_wf (what the subset construction builds is well-formed) and hence minimize_built_automaton — minimising the automaton the compiler builds preserves its language for all schedules of both loops; hopcroft_partition_stable (the final partition is a congruence that never mixes accepting and non-accepting states); minimiser_terminates (on every well-formed automaton the refinement loop ends within its fuel, so the result always exists); minimised_is_reduced (when every state of the input can reach acceptance no two states of the result accept the same words: Hopcroft\'s work-list invariant for every schedule), minimised_is_accessible, built_automaton_trim (what the subset construction builds from an expression without empty alternation is reachable and co-reachable) and hence minimised_built_is_minimal — the minimised automaton of every compiled expression is reduced and accessible, i.e. the minimal automaton of its language, for all schedules; minimised_is_trim; and the cardinality form (Proofs/HopcroftCard.lean, Myhill-Nerode for partial automata) minimised_is_smallest / minimised_built_is_smallest — no automaton whatever that accepts the same words has fewer states than the minimiser\'s result. compiled_is_minimal / compiled_is_smallest (Proofs/EndToEnd.lean) state it from source text with no hypothesis left: for every text the parser model accepts and every shell and schedule for which the pipeline model (validate, regex, ambiguity checks, symbols, subset construction, minimisation) returns, the minimised main automaton accepts the words of the raw one, is reduced, trim and no automaton of that language is smaller — the parser never builds an empty alternation and validation never creates one (Proofs/NoEmptyAlt.lean; empty_alternation_only_from_outside shows validation does pass one through), and every position has a symbol (Proofs/PipelineMin.lean). within_word_automata_minimised: the same facts for every within-word automaton of the result (reducedness under the two side conditions named there). coacc_needed / access_needed: both hypotheses are necessary (the real code keeps the dead state in a block of its own), with kernel-checked counterexamples that the compiler never produces.'
+NOTE = 'Language preservation, termination and minimality (reduced + accessible) are theorems over the model of do_minimize for every iteration order; the model is tied to the real minimiser on every run (minimised automata equal state for state in the stage comparison of C02/C03, and the real output certified independently by the verified checkers). The hypothesis of the expression-level minimality theorem (no empty alternation in the validated expression) is discharged for parsed text by compiled_is_minimal. Trusted: vh dump; the certificate search is untrusted (only its certificates are checked).'
 TECHNIQUE = 'Lean 4 verified certificate checkers (bisimulation, access/co-access, pairwise distinguishing words) applied to every automaton the real minimiser outputs'
 DESIGN_REF = '§3 C03'
 
